@@ -12,6 +12,7 @@ structure Inv (s : Pool) : Prop where
   nodup : s.hashes.Nodup
   disjoint : ∀ h ∈ s.hashes, h ∉ s.execHashes
   batch : GateOnly s.batch
+  attached : s.detached = false
 
 /-- every receipt belongs to a transaction of the block (what `VMExecutor.Execute` returns) -/
 def Covered (receipts : List Nat) (txs : List Tx) : Prop := ∀ h ∈ receipts, ∃ t ∈ txs, t.hash = h
@@ -26,7 +27,7 @@ theorem existed_iff {s : Pool} {h : Nat} : s.existed h = true ↔ h ∈ s.hashes
   simp [Pool.existed, contains_iff, isExecuted_iff]
 
 theorem inv_empty (limit : Nat) : Inv (Pool.empty limit) :=
-  ⟨by simp [Pool.empty, Pool.hashes], by simp [Pool.empty, Pool.hashes], by simp [Pool.empty, GateOnly]⟩
+  ⟨by simp [Pool.empty, Pool.hashes], by simp [Pool.empty, Pool.hashes], by simp [Pool.empty, GateOnly], rfl⟩
 
 /-! ### push / add -/
 
@@ -43,6 +44,9 @@ theorem batch_push (s : Pool) (t : Tx) : (s.push t).batch = s.batch := by
 theorem limit_push (s : Pool) (t : Tx) : (s.push t).limit = s.limit := by
   unfold Pool.push; split <;> rfl
 
+theorem detached_push (s : Pool) (t : Tx) : (s.push t).detached = s.detached := by
+  unfold Pool.push; split <;> rfl
+
 theorem execHashes_push (s : Pool) (t : Tx) : (s.push t).execHashes = s.execHashes := by
   simp [Pool.execHashes, exec_push]
 
@@ -55,7 +59,7 @@ theorem add_fresh {s : Pool} {t : Tx} (h : s.existed t.hash = false) : s.add t =
 theorem inv_push {s : Pool} {t : Tx} (hi : Inv s) (h : s.existed t.hash = false) : Inv (s.push t) := by
   have hne : ¬ (t.hash ∈ s.hashes ∨ t.hash ∈ s.execHashes) := by
     intro hh; have := existed_iff.mpr hh; simp [h] at this
-  refine ⟨?_, ?_, ?_⟩
+  refine ⟨?_, ?_, ?_, by rw [detached_push]; exact hi.attached⟩
   · rw [hashes_push]; split
     · rw [List.nodup_append]
       refine ⟨hi.nodup, by simp, ?_⟩
@@ -81,7 +85,7 @@ theorem gateOnly_append_gate {b : List BOp} (h : GateOnly b) (n : Nat) : GateOnl
 
 theorem inv_refreshGate {s : Pool} (t : Tx) (hi : Inv s) : Inv (s.refreshGate t) := by
   unfold Pool.refreshGate; split
-  · exact ⟨hi.nodup, hi.disjoint, gateOnly_append_gate hi.batch _⟩
+  · exact ⟨hi.nodup, hi.disjoint, gateOnly_append_gate hi.batch _, hi.attached⟩
   · exact hi
 
 theorem inv_addTransaction {s : Pool} (t : Tx) (hi : Inv s) : Inv (s.addTransaction t).1 := by
@@ -131,7 +135,7 @@ theorem mem_execDel {ex : List (Nat × Option Tx)} {h k : Nat} :
 /-- hashes of the executed records a batch will write -/
 def putHashes : List BOp → List Nat
   | [] => []
-  | .putTx h _ :: r => h :: putHashes r
+  | .putTx h _ _ :: r => h :: putHashes r
   | .putGate _ :: r => putHashes r
 
 theorem putHashes_append (a b : List BOp) : putHashes (a ++ b) = putHashes a ++ putHashes b := by
@@ -146,25 +150,50 @@ theorem putHashes_gateOnly {b : List BOp} (h : GateOnly b) : putHashes b = [] :=
     obtain ⟨n, rfl⟩ := h o (by simp)
     simp [putHashes]; exact ih (fun o ho => h o (by simp [ho]))
 
-theorem foldl_applyBOp_pending (b : List BOp) (s : Pool) :
-    (b.foldl applyBOp s).pending = s.pending ∧ (b.foldl applyBOp s).limit = s.limit := by
+/-- every executed record waiting in the batch has a positive byte size (a JSON record is never empty) -/
+def PosSizes (b : List BOp) : Prop := ∀ h v z, BOp.putTx h v z ∈ b → 0 < z
+
+theorem posSizes_gateOnly {b : List BOp} (h : GateOnly b) : PosSizes b := by
+  intro x v z hm; obtain ⟨n, e⟩ := h _ hm; cases e
+
+theorem posSizes_append {a b : List BOp} (ha : PosSizes a) (hb : PosSizes b) : PosSizes (a ++ b) := by
+  intro h v z hm; rcases List.mem_append.mp hm with hm | hm
+  · exact ha h v z hm
+  · exact hb h v z hm
+
+theorem bsize_zero_nil : ∀ {b : List BOp}, PosSizes b → bsize b = 0 → b = []
+  | [], _, _ => rfl
+  | .putTx h v z :: r, hp, hz => by
+    have := hp h v z (by simp); simp [bsize] at hz; omega
+  | .putGate n :: r, _, hz => by simp [bsize] at hz
+
+theorem applyBOp_frame (s : Pool) (o : BOp) :
+    (applyBOp s o).pending = s.pending ∧ (applyBOp s o).limit = s.limit ∧ (applyBOp s o).detached = s.detached ∧
+    (applyBOp s o).evicted = s.evicted ∧ (applyBOp s o).batch = s.batch := by
+  cases o <;> simp [applyBOp] <;> split <;> simp
+
+theorem foldl_applyBOp_frame (b : List BOp) (s : Pool) :
+    (b.foldl applyBOp s).pending = s.pending ∧ (b.foldl applyBOp s).limit = s.limit ∧
+    (b.foldl applyBOp s).detached = s.detached ∧ (b.foldl applyBOp s).evicted = s.evicted := by
   induction b generalizing s with
   | nil => simp
   | cons o r ih =>
     simp only [List.foldl_cons]
-    have := ih (applyBOp s o)
-    cases o <;> simpa [applyBOp] using this
+    have h1 := ih (applyBOp s o)
+    have h2 := applyBOp_frame s o
+    exact ⟨h1.1.trans h2.1, h1.2.1.trans h2.2.1, h1.2.2.1.trans h2.2.2.1, h1.2.2.2.trans h2.2.2.2.1⟩
 
-theorem mem_exec_foldl (b : List BOp) (s : Pool) (k : Nat) :
+theorem mem_exec_foldl (b : List BOp) (s : Pool) (hd : s.detached = false) (k : Nat) :
     k ∈ (b.foldl applyBOp s).execHashes ↔ k ∈ s.execHashes ∨ k ∈ putHashes b := by
   induction b generalizing s with
   | nil => simp [putHashes]
   | cons o r ih =>
     simp only [List.foldl_cons]
-    rw [ih]
+    rw [ih _ (by rw [(applyBOp_frame s o).2.2.1]; exact hd)]
     cases o with
-    | putTx h v =>
-      simp only [applyBOp, Pool.execHashes, putHashes, List.mem_cons]
+    | putTx h v z =>
+      simp only [applyBOp, hd, Pool.execHashes, putHashes, List.mem_cons]
+      simp only [Bool.false_eq_true, if_false]
       rw [mem_execPut]
       constructor
       · rintro ((rfl | h1) | h2)
@@ -175,14 +204,29 @@ theorem mem_exec_foldl (b : List BOp) (s : Pool) (k : Nat) :
         · exact Or.inl (Or.inr h1)
         · exact Or.inl (Or.inl rfl)
         · exact Or.inr h2
-    | putGate n => simp [applyBOp, Pool.execHashes, putHashes]
+    | putGate n => simp [applyBOp, hd, Pool.execHashes, putHashes]
 
 theorem hashes_flush (s : Pool) : s.flush.hashes = s.hashes := by
-  simp [Pool.flush, Pool.hashes, (foldl_applyBOp_pending s.batch s).1]
+  simp [Pool.flush, Pool.hashes, (foldl_applyBOp_frame s.batch s).1]
 
-theorem mem_exec_flush (s : Pool) (k : Nat) : k ∈ s.flush.execHashes ↔ k ∈ s.execHashes ∨ k ∈ putHashes s.batch := by
-  have := mem_exec_foldl s.batch s k
+theorem flush_frame (s : Pool) : s.flush.pending = s.pending ∧ s.flush.limit = s.limit ∧
+    s.flush.detached = s.detached ∧ s.flush.evicted = s.evicted ∧ s.flush.batch = [] := by
+  have := foldl_applyBOp_frame s.batch s
+  simp [Pool.flush, this]
+
+theorem mem_exec_flush (s : Pool) (hd : s.detached = false) (k : Nat) :
+    k ∈ s.flush.execHashes ↔ k ∈ s.execHashes ∨ k ∈ putHashes s.batch := by
+  have := mem_exec_foldl s.batch s hd k
   simpa [Pool.flush, Pool.execHashes] using this
+
+theorem refreshGate_frame (s : Pool) (t : Tx) : (s.refreshGate t).pending = s.pending ∧ (s.refreshGate t).limit = s.limit ∧
+    (s.refreshGate t).detached = s.detached ∧ (s.refreshGate t).evicted = s.evicted ∧
+    (s.refreshGate t).executed = s.executed ∧ putHashes (s.refreshGate t).batch = putHashes s.batch ∧
+    (PosSizes s.batch → PosSizes (s.refreshGate t).batch) := by
+  unfold Pool.refreshGate; split
+  · refine ⟨rfl, rfl, rfl, rfl, rfl, by simp [putHashes_append, putHashes], ?_⟩
+    intro hp; exact posSizes_append hp (by intro h v z hm; simp at hm)
+  · exact ⟨rfl, rfl, rfl, rfl, rfl, rfl, id⟩
 
 /-! ### MarkExecuted -/
 
@@ -213,67 +257,279 @@ theorem findTx_none {txs : List Tx} {h : Nat} (hc : ¬ ∃ t ∈ txs, t.hash = h
     · exact hf
   · exact hf
 
-theorem markReceipts_covered {txs : List Tx} :
-    ∀ (rs : List Nat) (i : Nat) (b : List BOp), Covered rs txs →
-      ∃ b', markReceipts txs rs i b = (b', false) ∧ putHashes b' = putHashes b ++ rs
-  | [], i, b, _ => ⟨b, rfl, by simp⟩
-  | h :: hs, i, b, hc => by
+/-- What the receipt loop guarantees for every crash point: it ends `ok` or `crash`, never touches the
+pending container, keeps every old record, and whatever is recorded or waiting in the batch afterwards
+was recorded or waiting before or is a receipt of this block; when it ends `ok`, all receipts are. -/
+theorem markLoop_spec {txs : List Tx} (crashAt : Option Nat) :
+    ∀ (rs : List (Nat × Nat)) (i : Nat) (ws : List Nat) (s : Pool),
+      Covered (rs.map (·.1)) txs → s.detached = false → PosSizes s.batch → (∀ p ∈ rs, 0 < p.2) →
+      ∃ s' ws' r, markLoop txs crashAt rs i ws s = (s', ws', r) ∧ (r = .ok ∨ r = .crash) ∧ (crashAt = none → r = .ok) ∧
+        s'.pending = s.pending ∧ s'.limit = s.limit ∧ s'.detached = false ∧ s'.evicted = s.evicted ∧
+        PosSizes s'.batch ∧ (∀ k, k ∈ s.execHashes → k ∈ s'.execHashes) ∧
+        (∀ k, (k ∈ s'.execHashes ∨ k ∈ putHashes s'.batch) → (k ∈ s.execHashes ∨ k ∈ putHashes s.batch ∨ k ∈ rs.map (·.1))) ∧
+        (r = .ok → ∀ k, (k ∈ s.execHashes ∨ k ∈ putHashes s.batch ∨ k ∈ rs.map (·.1)) → (k ∈ s'.execHashes ∨ k ∈ putHashes s'.batch))
+  | [], i, ws, s, _, hd, hp, _ =>
+    ⟨s, ws, .ok, rfl, Or.inl rfl, fun _ => rfl, rfl, rfl, hd, rfl, hp, fun _ h => h,
+      by intro k h; rcases h with h | h; exact Or.inl h; exact Or.inr (Or.inl h),
+      by intro _ k h; rcases h with h | h | h; exact Or.inl h; exact Or.inr h; simp at h⟩
+  | (h, z) :: rs, i, ws, s, hc, hd, hp, hz => by
     obtain ⟨t, ht⟩ := findTx_isSome (hc h (by simp)) i
-    unfold markReceipts
+    have hc' : Covered (rs.map (·.1)) txs := fun x hx => hc x (by simp [hx])
+    have hz' : ∀ p ∈ rs, 0 < p.2 := fun p hp => hz p (by simp [hp])
+    have hzz : 0 < z := hz (h, z) (by simp)
+    unfold markLoop
     simp only [ht]
-    have hc' : Covered hs txs := fun x hx => hc x (by simp [hx])
+    -- the state after the put
+    have hp1 : PosSizes (s.batch ++ [BOp.putTx h (some t) z]) :=
+      posSizes_append hp (by intro a v y hm; simp at hm; omega)
     split
-    · obtain ⟨b', h1, h2⟩ := markReceipts_covered hs (i + 1) ((b ++ [.putTx h (some t)]) ++ [.putGate t.gate]) hc'
-      exact ⟨b', h1, by rw [h2]; simp [putHashes_append, putHashes]⟩
-    · obtain ⟨b', h1, h2⟩ := markReceipts_covered hs (i + 1) (b ++ [.putTx h (some t)]) hc'
-      exact ⟨b', h1, by rw [h2]; simp [putHashes_append, putHashes]⟩
+    · split
+      · -- crash right before the mid-loop write
+        rename_i hcr
+        have hnn : crashAt = none → MarkRes.crash = MarkRes.ok := by intro e; rw [e] at hcr; cases hcr
+        refine ⟨_, _, .crash, rfl, Or.inr rfl, hnn, rfl, rfl, hd, rfl, hp1, fun _ hk => hk, ?_, by intro e; cases e⟩
+        intro k hk
+        simp only [putHashes_append, putHashes, List.mem_append, List.map_cons, List.mem_cons, List.not_mem_nil, or_false] at hk ⊢
+        rcases hk with hk | hk | hk
+        · exact Or.inl hk
+        · exact Or.inr (Or.inl hk)
+        · exact Or.inr (Or.inr (Or.inl hk))
+      · -- written, batch reset, gate refreshed
+        let s1 : Pool := { s with batch := s.batch ++ [BOp.putTx h (some t) z] }
+        have hd1 : s1.detached = false := hd
+        have ff := flush_frame s1
+        have rf := refreshGate_frame s1.flush t
+        have hd2 : (s1.flush.refreshGate t).detached = false := by rw [rf.2.2.1, ff.2.2.1]; exact hd1
+        have hp2 : PosSizes (s1.flush.refreshGate t).batch := rf.2.2.2.2.2.2 (by rw [ff.2.2.2.2]; intro a v y hm; simp at hm)
+        obtain ⟨s', ws', r, he, hr, hn, h1, h2, h3, h4, h5, h6, h7, h8⟩ :=
+          markLoop_spec crashAt rs (i + 1) (s1.batch.length :: ws) (s1.flush.refreshGate t) hc' hd2 hp2 hz'
+        have hex : ∀ k, k ∈ (s1.flush.refreshGate t).execHashes ↔ k ∈ s.execHashes ∨ k ∈ putHashes s.batch ∨ k = h := by
+          intro k
+          have := mem_exec_flush s1 hd1 k
+          simp only [Pool.execHashes] at this ⊢
+          rw [rf.2.2.2.2.1, this]
+          simp [s1, putHashes_append, putHashes, or_assoc]
+        have hb2 : putHashes (s1.flush.refreshGate t).batch = [] := by rw [rf.2.2.2.2.2.1, ff.2.2.2.2]; rfl
+        refine ⟨s', ws', r, he, hr, hn, by rw [h1, rf.1, ff.1], by rw [h2, rf.2.1, ff.2.1], h3, by rw [h4, rf.2.2.2.1, ff.2.2.2.1], h5,
+          fun k hk => h6 k ((hex k).mpr (Or.inl hk)), ?_, ?_⟩
+        · intro k hk
+          rcases h7 k hk with hk | hk | hk
+          · rcases (hex k).mp hk with hk | hk | hk
+            · exact Or.inl hk
+            · exact Or.inr (Or.inl hk)
+            · exact Or.inr (Or.inr (by simp [hk]))
+          · rw [hb2] at hk; simp at hk
+          · exact Or.inr (Or.inr (by simp only [List.map_cons, List.mem_cons]; exact Or.inr hk))
+        · intro hrok k hk
+          apply h8 hrok
+          rcases hk with hk | hk | hk
+          · exact Or.inl ((hex k).mpr (Or.inl hk))
+          · exact Or.inl ((hex k).mpr (Or.inr (Or.inl hk)))
+          · simp only [List.map_cons, List.mem_cons] at hk
+            rcases hk with hk | hk
+            · exact Or.inl ((hex k).mpr (Or.inr (Or.inr hk)))
+            · exact Or.inr (Or.inr hk)
+    · -- below the threshold: nothing written
+      let s1 : Pool := { s with batch := s.batch ++ [BOp.putTx h (some t) z] }
+      have hd1 : s1.detached = false := hd
+      have rf := refreshGate_frame s1 t
+      have hd2 : (s1.refreshGate t).detached = false := by rw [rf.2.2.1]; exact hd1
+      have hp2 : PosSizes (s1.refreshGate t).batch := rf.2.2.2.2.2.2 hp1
+      obtain ⟨s', ws', r, he, hr, hn, h1, h2, h3, h4, h5, h6, h7, h8⟩ :=
+        markLoop_spec crashAt rs (i + 1) ws (s1.refreshGate t) hc' hd2 hp2 hz'
+      have hb2 : putHashes (s1.refreshGate t).batch = putHashes s.batch ++ [h] := by
+        rw [rf.2.2.2.2.2.1]; simp [s1, putHashes_append, putHashes]
+      have hx2 : (s1.refreshGate t).execHashes = s.execHashes := by simp only [Pool.execHashes]; rw [rf.2.2.2.2.1]
+      refine ⟨s', ws', r, he, hr, hn, by rw [h1, rf.1], by rw [h2, rf.2.1], h3, by rw [h4, rf.2.2.2.1], h5,
+        fun k hk => h6 k (by rw [hx2]; exact hk), ?_, ?_⟩
+      · intro k hk
+        rcases h7 k hk with hk | hk | hk
+        · rw [hx2] at hk; exact Or.inl hk
+        · rw [hb2] at hk; simp only [List.mem_append, List.mem_singleton] at hk
+          rcases hk with hk | hk
+          · exact Or.inr (Or.inl hk)
+          · exact Or.inr (Or.inr (by simp [hk]))
+        · exact Or.inr (Or.inr (by simp only [List.map_cons, List.mem_cons]; exact Or.inr hk))
+      · intro hrok k hk
+        apply h8 hrok
+        rcases hk with hk | hk | hk
+        · exact Or.inl (by rw [hx2]; exact hk)
+        · exact Or.inr (Or.inl (by rw [hb2]; exact List.mem_append_left _ hk))
+        · simp only [List.map_cons, List.mem_cons] at hk
+          rcases hk with hk | hk
+          · exact Or.inr (Or.inl (by rw [hb2]; simp [hk]))
+          · exact Or.inr (Or.inr hk)
 
-/-- A receipt without transaction makes `MarkExecuted` panic (the modelled error branch is reachable exactly then). -/
-theorem markReceipts_uncovered {txs : List Tx} :
-    ∀ (rs : List Nat) (i : Nat) (b : List BOp), ¬ Covered rs txs → (markReceipts txs rs i b).2 = true
-  | [], i, b, hc => absurd (fun _ h => by simp at h) hc
-  | h :: hs, i, b, hc => by
-    unfold markReceipts
+/-- A receipt without transaction makes the loop panic (the modelled error branch is reachable exactly then). -/
+theorem markLoop_uncovered {txs : List Tx} (crashAt : Option Nat) :
+    ∀ (rs : List (Nat × Nat)) (i : Nat) (ws : List Nat) (s : Pool), crashAt = none → ¬ Covered (rs.map (·.1)) txs →
+      (markLoop txs crashAt rs i ws s).2.2 = .panic
+  | [], i, ws, s, _, hc => absurd (fun _ h => by simp at h) hc
+  | (h, z) :: rs, i, ws, s, hn, hc => by
+    unfold markLoop
     by_cases hh : ∃ t ∈ txs, t.hash = h
     · obtain ⟨t, ht⟩ := findTx_isSome hh i
       simp only [ht]
-      have : ¬ Covered hs txs := by
+      have : ¬ Covered (rs.map (·.1)) txs := by
         intro c; apply hc; intro x hx
-        rcases List.mem_cons.mp hx with rfl | hx
+        simp only [List.map_cons, List.mem_cons] at hx
+        rcases hx with rfl | hx
         · exact hh
         · exact c x hx
-      split <;> exact markReceipts_uncovered hs _ _ this
+      subst hn
+      split
+      · simp only [reduceCtorEq, if_false]; exact markLoop_uncovered none rs _ _ _ rfl this
+      · exact markLoop_uncovered none rs _ _ _ rfl this
     · simp [findTx_none hh i]
 
-/-- What a well-formed `MarkExecuted` does, as sets. -/
+/-- Without a crash point and with every receipt covered the loop ends `ok`, in every state. -/
+theorem markLoop_res_covered {txs : List Tx} :
+    ∀ (rs : List (Nat × Nat)) (i : Nat) (ws : List Nat) (s : Pool), Covered (rs.map (·.1)) txs →
+      (markLoop txs none rs i ws s).2.2 = .ok
+  | [], _, _, _, _ => rfl
+  | (h, z) :: rs, i, ws, s, hc => by
+    obtain ⟨t, ht⟩ := findTx_isSome (hc h (by simp)) i
+    have hc' : Covered (rs.map (·.1)) txs := fun x hx => hc x (by simp [hx])
+    unfold markLoop
+    simp only [ht]
+    split
+    · simp only [reduceCtorEq, if_false]; exact markLoop_res_covered rs _ _ _ hc'
+    · exact markLoop_res_covered rs _ _ _ hc'
+
+theorem markExecutedZ_res {s : Pool} {rs : List (Nat × Nat)} {txs : List Tx} {evicted : List Nat} :
+    (s.markExecutedZ rs txs evicted none).2.2 = .ok ↔ Covered (rs.map (·.1)) txs := by
+  unfold Pool.markExecutedZ
+  by_cases hr : rs = []
+  · subst hr; simp [Covered]
+  · simp only [hr, if_false]
+    by_cases hc : Covered (rs.map (·.1)) txs
+    · have := markLoop_res_covered (txs := txs) rs 0 [] s hc
+      cases hm : markLoop txs none rs 0 [] s with
+      | mk s1 p => cases p with
+        | mk ws r =>
+          rw [hm] at this; simp at this; subst this
+          simp only [reduceCtorEq, if_false]
+          split <;> simp [hc]
+    · have := markLoop_uncovered (txs := txs) none rs 0 [] s rfl hc
+      cases hm : markLoop txs none rs 0 [] s with
+      | mk s1 p => cases p with
+        | mk ws r =>
+          rw [hm] at this; simp at this; subst this
+          simp [hc]
+
+theorem evictAll_frame (s : Pool) (hs : List Nat) : (s.evictAll hs).pending = s.pending ∧ (s.evictAll hs).executed = s.executed ∧
+    (s.evictAll hs).batch = s.batch ∧ (s.evictAll hs).limit = s.limit ∧ (s.evictAll hs).detached = s.detached :=
+  ⟨rfl, rfl, rfl, rfl, rfl⟩
+
+/-- What a well-formed `MarkExecuted` does, as sets — for every choice of record sizes, i.e. wherever inside
+the call the batch is written. -/
+theorem markExecutedZ_ok {s : Pool} {rs : List (Nat × Nat)} {txs : List Tx} {evicted : List Nat}
+    (hb : GateOnly s.batch) (hd : s.detached = false) (hc : Covered (rs.map (·.1)) txs) (hz : ∀ p ∈ rs, 0 < p.2) :
+    ∃ s' ws, s.markExecutedZ rs txs evicted none = (s', ws, .ok) ∧
+      s'.hashes = s.hashes.filter (fun h => !(rs.map (·.1) ++ evicted).contains h) ∧
+      (∀ k, k ∈ s'.execHashes ↔ k ∈ s.execHashes ∨ k ∈ rs.map (·.1)) ∧
+      GateOnly s'.batch ∧ s'.limit = s.limit ∧ s'.detached = false := by
+  unfold Pool.markExecutedZ
+  by_cases hr : rs = []
+  · subst hr
+    refine ⟨(s.evictAll evicted).removeHashes evicted, [], by simp, ?_, ?_, hb, rfl, hd⟩
+    · rw [hashes_removeHashes]; simp [Pool.hashes, Pool.evictAll]
+    · intro k; simp [Pool.removeHashes, Pool.execHashes, Pool.evictAll]
+  · obtain ⟨s1, ws, r, he, _, hn, h1, h2, h3, _, h5, h6, h7, h8⟩ := markLoop_spec none rs 0 [] s hc hd (posSizes_gateOnly hb) hz
+    have hrok : r = .ok := hn rfl
+    subst hrok
+    simp only [hr, if_false, he]
+    have hP : putHashes s.batch = [] := putHashes_gateOnly hb
+    by_cases hbz : bsize s1.batch > 0
+    · simp only [hbz, if_true, reduceCtorEq, if_false]
+      have ff := flush_frame s1
+      refine ⟨_, _, rfl, ?_, ?_, ?_, ?_, ?_⟩
+      · rw [hashes_removeHashes]; simp only [Pool.hashes, Pool.evictAll, ff.1, h1]
+      · intro k
+        have := mem_exec_flush s1 h3 k
+        simp only [Pool.removeHashes, Pool.execHashes, Pool.evictAll] at this ⊢
+        rw [this]
+        constructor
+        · intro hk
+          rcases h7 k (by simpa [Pool.execHashes] using hk) with hk | hk | hk
+          · exact Or.inl hk
+          · rw [hP] at hk; simp at hk
+          · exact Or.inr hk
+        · intro hk
+          have := h8 rfl k (by rcases hk with hk | hk; exact Or.inl hk; exact Or.inr (Or.inr hk))
+          simpa [Pool.execHashes] using this
+      · intro o ho; simp [Pool.removeHashes, Pool.evictAll, ff.2.2.2.2] at ho
+      · simp [Pool.removeHashes, Pool.evictAll, ff.2.1, h2]
+      · simp [Pool.removeHashes, Pool.evictAll, ff.2.2.1, h3]
+    · simp only [hbz, if_false]
+      have hnil : s1.batch = [] := bsize_zero_nil h5 (by omega)
+      refine ⟨_, _, rfl, ?_, ?_, ?_, ?_, ?_⟩
+      · rw [hashes_removeHashes]; simp only [Pool.hashes, Pool.evictAll, h1]
+      · intro k
+        simp only [Pool.removeHashes, Pool.execHashes, Pool.evictAll]
+        constructor
+        · intro hk
+          rcases h7 k (Or.inl (by simpa [Pool.execHashes] using hk)) with hk | hk | hk
+          · exact Or.inl hk
+          · rw [hP] at hk; simp at hk
+          · exact Or.inr hk
+        · intro hk
+          have := h8 rfl k (by rcases hk with hk | hk; exact Or.inl hk; exact Or.inr (Or.inr hk))
+          rw [hnil] at this
+          simpa [Pool.execHashes, putHashes] using this
+      · intro o ho; simp [Pool.removeHashes, Pool.evictAll, hnil] at ho
+      · simp [Pool.removeHashes, Pool.evictAll, h2]
+      · simp [Pool.removeHashes, Pool.evictAll, h3]
+
+/-- A crash before any physical write of `MarkExecuted` (process death between two batch writes): the
+pending container is untouched, no old record is lost, and every record present afterwards is an old one
+or belongs to a receipt of this block. -/
+theorem markExecutedZ_crash {s : Pool} {rs : List (Nat × Nat)} {txs : List Tx} {evicted : List Nat} {k : Nat}
+    (hb : GateOnly s.batch) (hd : s.detached = false) (hc : Covered (rs.map (·.1)) txs) (hz : ∀ p ∈ rs, 0 < p.2)
+    {s' : Pool} {ws : List Nat} (h : s.markExecutedZ rs txs evicted (some k) = (s', ws, .crash)) :
+    s'.pending = s.pending ∧ s'.evicted = s.evicted ∧ (∀ x, x ∈ s.execHashes → x ∈ s'.execHashes) ∧
+      (∀ x, x ∈ s'.execHashes → x ∈ s.execHashes ∨ x ∈ rs.map (·.1)) := by
+  unfold Pool.markExecutedZ at h
+  by_cases hr : rs = []
+  · simp [hr] at h
+  · obtain ⟨s1, ws1, r, he, hro, _, h1, _, _, h4, _, h6, h7, _⟩ :=
+      markLoop_spec (some k) rs 0 [] s hc hd (posSizes_gateOnly hb) hz
+    have hP : putHashes s.batch = [] := putHashes_gateOnly hb
+    simp only [hr, if_false, he] at h
+    have key : s1.pending = s.pending ∧ s1.evicted = s.evicted ∧ (∀ x, x ∈ s.execHashes → x ∈ s1.execHashes) ∧
+        (∀ x, x ∈ s1.execHashes → x ∈ s.execHashes ∨ x ∈ rs.map (·.1)) := by
+      refine ⟨h1, h4, h6, ?_⟩
+      intro x hx
+      rcases h7 x (Or.inl hx) with hx | hx | hx
+      · exact Or.inl hx
+      · rw [hP] at hx; simp at hx
+      · exact Or.inr hx
+    rcases hro with rfl | rfl
+    · simp only at h
+      split at h
+      · split at h
+        · simp at h; obtain ⟨rfl, _⟩ := h; exact key
+        · simp at h
+      · simp at h
+    · simp at h; obtain ⟨rfl, _⟩ := h; exact key
+
 theorem markExecuted_ok {s : Pool} {receipts : List Nat} {txs : List Tx} {evicted : List Nat}
-    (hb : GateOnly s.batch) (hc : Covered receipts txs) :
+    (hb : GateOnly s.batch) (hd : s.detached = false) (hc : Covered receipts txs) :
     ∃ s', s.markExecuted receipts txs evicted = (s', false) ∧
       s'.hashes = s.hashes.filter (fun h => !(receipts ++ evicted).contains h) ∧
       (∀ k, k ∈ s'.execHashes ↔ k ∈ s.execHashes ∨ k ∈ receipts) ∧
-      GateOnly s'.batch ∧ s'.limit = s.limit := by
-  unfold Pool.markExecuted
-  by_cases hr : receipts = []
-  · subst hr
-    refine ⟨s.removeHashes evicted, by simp, ?_, ?_, hb, rfl⟩
-    · simp [hashes_removeHashes]
-    · intro k; simp [Pool.removeHashes, Pool.execHashes]
-  · obtain ⟨b', h1, h2⟩ := markReceipts_covered receipts 0 s.batch hc
-    simp only [hr, if_false, h1]
-    refine ⟨_, rfl, ?_, ?_, ?_, ?_⟩
-    · rw [hashes_removeHashes, hashes_flush]; rfl
-    · intro k
-      have := mem_exec_flush ({ s with batch := b' } : Pool) k
-      simp only [Pool.removeHashes, Pool.execHashes] at this ⊢
-      rw [this, h2, putHashes_gateOnly hb]; simp
-    · intro o ho; simp [Pool.removeHashes, Pool.flush] at ho
-    · simp [Pool.removeHashes, Pool.flush, (foldl_applyBOp_pending b' _).2]
+      GateOnly s'.batch ∧ s'.limit = s.limit ∧ s'.detached = false := by
+  have hm : (receipts.map (fun h => (h, 1))).map (·.1) = receipts := by simp [List.map_map, Function.comp_def]
+  obtain ⟨s', ws, he, h1, h2, h3, h4, h5⟩ := markExecutedZ_ok (s := s) (rs := receipts.map (fun h => (h, 1))) (txs := txs)
+    (evicted := evicted) hb hd (by rw [hm]; exact hc) (by intro p hp; simp at hp; obtain ⟨_, _, rfl⟩ := hp; simp)
+  rw [hm] at h1 h2
+  exact ⟨s', by simp [Pool.markExecuted, he], h1, h2, h3, h4, h5⟩
 
 theorem inv_markExecuted {s : Pool} {receipts : List Nat} {txs : List Tx} {evicted : List Nat}
     (hi : Inv s) (hc : Covered receipts txs) : Inv (s.markExecuted receipts txs evicted).1 := by
-  obtain ⟨s', he, hh, hx, hb, _⟩ := markExecuted_ok (evicted := evicted) hi.batch hc
+  obtain ⟨s', he, hh, hx, hb, _, hd⟩ := markExecuted_ok (evicted := evicted) hi.batch hi.attached hc
   rw [he]
-  refine ⟨?_, ?_, hb⟩
+  refine ⟨?_, ?_, hb, hd⟩
   · rw [hh]; exact hi.nodup.sublist List.filter_sublist
   · intro h hm
     rw [hh, List.mem_filter] at hm
@@ -290,7 +546,7 @@ theorem mem_exec_delExec {s : Pool} {h k : Nat} : k ∈ (s.delExec h).execHashes
   simp only [Pool.delExec, Pool.execHashes]; exact mem_execDel
 
 theorem inv_delExec {s : Pool} (h : Nat) (hi : Inv s) : Inv (s.delExec h) :=
-  ⟨hi.nodup, fun x hx he => hi.disjoint x hx (mem_exec_delExec.mp he).2, hi.batch⟩
+  ⟨hi.nodup, fun x hx he => hi.disjoint x hx (mem_exec_delExec.mp he).2, hi.batch, hi.attached⟩
 
 theorem inv_unmark {s : Pool} (txs : List Tx) (hi : Inv s) : Inv (s.unmark txs) := by
   unfold Pool.unmark
@@ -392,6 +648,6 @@ theorem hashes_expire_sublist (s : Pool) : s.expire.hashes.Sublist s.hashes := b
 theorem inv_expire {s : Pool} (hi : Inv s) : Inv s.expire :=
   ⟨hi.nodup.sublist (hashes_expire_sublist s),
    fun h hm => hi.disjoint h ((hashes_expire_sublist s).subset hm),
-   hi.batch⟩
+   hi.batch, hi.attached⟩
 
 end Rangers.Pool
